@@ -130,7 +130,8 @@ impl WriteAheadLog {
     fn skip_record(file: &mut File) -> Result<(), DbError> {
         file.seek(SeekFrom::Current(u64::serialized_size_static() as i64))?;
         let value_size = u64::deserialize(&Self::read_exact(file, u64::serialized_size_static())?)?;
-        file.seek(SeekFrom::Current(value_size as i64))?;
+        // a size that does not fit i64 would seek backwards
+        file.seek(SeekFrom::Current(i64::try_from(value_size)?))?;
         Ok(())
     }
 
